@@ -36,6 +36,8 @@ func init() {
 		func(c *Ctx) {
 			c.load("dot/state")
 			c.ruleLoopProg()
+			c.ruleErrWrap("dot/state")
+			c.min("R-ERRWRAP", 1)
 			c.ruleLockPairing("R-LOCKPAIR", "dot/state")
 			c.ruleEpochKeyRoles()
 			c.ruleConfigFallback()
@@ -49,6 +51,8 @@ func init() {
 		func(c *Ctx) {
 			c.load("dot/state", "dot/digest", "dot/core")
 			c.ruleSetChangeOrder()
+			c.ruleNoInPlaceFilter()
+			c.min("R-NOINPLACEFILTER", 1)
 			c.ruleChangeSearch()
 			c.min("R-CMP/search", 9)
 			c.ruleForcedPrune()
@@ -567,6 +571,8 @@ func init() {
 		func(c *Ctx) {
 			c.load("dot/state")
 			c.ruleEquivocation()
+			c.ruleEquivocationEarlyOut()
+			c.min("R-EARLYOUT", 2)
 			c.ruleSlotWindow()
 			c.ruleFreshDecodeDest("R-FRESHDEST", "dot/state", "(*SlotState).CheckEquivocation")
 			c.min("R-EQUIVOC", 8)
